@@ -472,7 +472,15 @@ async fn main(plan: Plan) -> Outcome {
             if consumer == 3 {
                 use scylla::response::{PagingState, PagingStateResponse};
                 let mut state = PagingState::start();
+                let mut fetched = 0u32;
                 loop {
+                    // The node has at most 40 pages; a caller that is still being handed
+                    // "more pages" after 120 fetches stops (the chain oracle will tell why).
+                    fetched += 1;
+                    if fetched > 120 {
+                        error = Some("caller gave up after 120 pages".into());
+                        return;
+                    }
                     let page = if use_prepared {
                         let mut p = prepared.clone().unwrap();
                         p.set_is_idempotent(true);
